@@ -180,6 +180,7 @@ func (x *Exec) atLoopHeader(st *State, fr *Frame, h *ssa.BasicBlock) {
 		// "site loop N backedge assert e": e holds at the end of every iteration; itercalls("name")
 		// counts the recorded calls of this iteration
 		x.iterBase = cut.recBase
+		x.iterObjBase = cut.objBase
 		x.siteAsserts(st, fr, "backedge", "", nil)
 		x.loopHook(st, fr, l, "back")
 		st.dead = true
@@ -203,6 +204,7 @@ func (x *Exec) atLoopHeader(st *State, fr *Frame, h *ssa.BasicBlock) {
 	}
 	x.loopHook(st, fr, l, "entry")
 	fr.cut[h].recBase = len(st.rec)
+	fr.cut[h].objBase = x.nextObj
 	// 3. assume invariants (a state cloned from here on continues into the body, with the invariants
 	// assumed so far: weaker, never unsound)
 	fr.headerDone = true
@@ -764,12 +766,14 @@ func (x *Exec) siteAsserts(st *State, fr *Frame, kind, arg string, bind map[stri
 			// itercalls/iterres count from the entry of the innermost enclosing loop iteration
 			if kind != "backedge" {
 				x.iterBase = 0
+				x.iterObjBase = 0
 				best := -1
 				for _, l := range x.loopsOf(fr.fn) {
 					if l.body[fr.block] {
 						if cut := fr.cut[l.header]; cut != nil && (best < 0 || len(l.body) < best) {
 							best = len(l.body)
 							x.iterBase = cut.recBase
+							x.iterObjBase = cut.objBase
 						}
 					}
 				}
